@@ -378,6 +378,53 @@ def ob_definition_panics(run, mir, rp):
         ob.inconclusive(str(e))
 
 
+def ob_map_exp_panics(run, mir, rp):
+    """Renaming the identifiers of an expectation: a block stands for its last statement - an empty block (a comment-only body) has none."""
+    EXP = "src/check/constrain/constraint/expected.rs"
+    try:
+        import ckern
+        import mirsym
+        fn = e2.find1(mir, file=EXP, impl="impl MapExp for Expected", name="map_exp")
+
+        def m_last(ex_, st_, fr, callee, a, at, dty):
+            # contract of <[T]>::last: Some exactly when the slice is not empty
+            v = mirsym._deref_val(ex_, st_, a[0])
+            t = ex_.to_val(st_, v)
+            n = ex_.uf("seq:len", Val, z3.BitVecSort(64))(t)
+            return Opq(ex_.uf("call:last/1", Val, Val)(t), "Option<&AST>", {("d",): z3.If(n == 0, z3.IntVal(0), z3.IntVal(1))})
+
+        def m_cloned(ex_, st_, fr, callee, a, at, dty):
+            v = mirsym._deref_val(ex_, st_, a[0])       # Option<&T>::cloned keeps the variant (Clone = identity)
+            return v
+        ex = Exec(mir, max_paths=5000, models=[(r"^core::slice::<impl \[.*\]>::last$", m_last), (r"^Option::<&.*>::cloned$", m_cloned)])
+        ends_all = []
+        for kind in ("Block", "other"):
+            st = State()
+            if kind == "Block":
+                node = ckern.mk_node("Block", {"statements": e2.opq("statements", "Vec<AST>")})
+            else:
+                node = e2.opq("node", "Node")
+            ast, _ = ckern.mk_ast("ast", node)
+            e = e2.mk_struct(EXP, "Expected", {"pos": e2.opq("pos", "Position"), "an_or_a": z3.Bool("an"), "expect": e2.mk_variant(EXP, "Expect", "Expression", {"ast": ast})})
+            ends_all += e2.run_kernel(run, ex, fn, [Ref(ex.new_cell(st, e)), Ref(ex.new_cell(st, e2.opq("vm", "VarMapping"))), Ref(ex.new_cell(st, e2.opq("gvm", "VarMapping")))], st)
+
+        def replay(model):
+            bad = []
+            for src in ("def f() -> Int =>\n    # todo\n", "def c := True\ndef x := if c then\n    # nothing\nelse\n    2\n", "def g(x: Int) -> Int =>\n    match x\n        1 =>\n            # nothing\n        _ => 2\n",
+                        "def f() =>\n    # todo\n", "while True do\n    # nothing\n"):
+                st_, out = rp.transpile(src)
+                if st_ not in ("OK", "ERR"):
+                    bad.append(f"{src!r}: {st_} {out[:80]!r}")
+            if bad:
+                return {"reproduced": True, "role": "map-exp-panics:comment-only-block", "detail": "; ".join(bad[:2])}
+            return {"reproduced": False, "detail": "5 comment-only blocks end with output or diagnostics"}
+        e2.no_panic(run, "map-exp-no-panic", "Expected::map_exp (renaming the identifiers of an expectation; a block stands for its last statement): no unwrap / expect / "
+                    "panic is reachable for any expression, in particular not for an EMPTY block (a comment-only body; `last()` is Some exactly when the block "
+                    "is not empty - contract stub)", ex, ends_all, [], {}, replay, ["<Expected as MapExp>::map_exp"])
+    except Unsupported as e:
+        run.ob("map-exp-no-panic", "E2", "map_exp encodable").inconclusive(str(e))
+
+
 def run(run):
     mir = e2.load_mir(run)
     rp = common.Replay()
@@ -498,6 +545,7 @@ def run(run):
     ob_parser_loops(run, mir, rp)
     ob_class_recursion(run, mir, rp)
     ob_definition_panics(run, mir, rp)
+    ob_map_exp_panics(run, mir, rp)
     if os.environ.get("VERIF_NO_KANI") != "1":
         import e1
         names = list(e1.QUICK_B) + ["step_other_char"]
